@@ -212,6 +212,7 @@ class Model:
     repo: Path
     modules: Dict[str, Module] = field(default_factory=dict)
     parse_errors: List[str] = field(default_factory=list)
+    normalisation: Dict[str, object] = field(default_factory=dict)
 
     def mod(self, name: str) -> Module:
         m = self.modules.get(name)
@@ -321,18 +322,28 @@ _COMMON_METHODS = {
 }
 
 
-def load_model(repo: str | os.PathLike = "/repo") -> Model:
+def load_model(repo: str | os.PathLike = "/repo", normalize: bool = True) -> Model:
     repo = Path(repo)
     src = repo / "src" / "nanoemoji"
     if not src.is_dir():
         raise AnchorMissing(f"{src} is not a directory")
     model = Model(repo)
+    parsed = []
     for p in sorted(src.glob("*.py")):
         text = p.read_text(encoding="utf-8")
         try:
             tree = ast.parse(text, filename=str(p))
         except SyntaxError as e:
             raise AnalysisError(f"cannot parse {p}: {e}")
+        parsed.append((p, text, tree))
+    if normalize and os.environ.get("NV_NO_NORMALIZE") != "1":
+        from .normalize import Normalizer
+        nz = Normalizer()
+        for p, text, tree in parsed:
+            nz.module(p.stem, tree)
+        nz.fix_keywords({p.stem: tree for p, _, tree in parsed})
+        model.normalisation = {"renamed": nz.renamed, "temp_returns_inlined": nz.inlined, "log_statements_dropped": nz.log_stmts, "negated_ifs_unflipped": nz.unflipped}
+    for p, text, tree in parsed:
         mod = Module(p.stem, p, str(p.relative_to(repo)), text, tree)
         _Indexer(mod).visit(tree)
         model.modules[p.stem] = mod
